@@ -434,7 +434,7 @@ PROPS = {
                               "contract -- run only to find a concrete stream for a failed Verus obligation"},
         "extra_searches": [
             {"bin": "c09_search_zone_histories", "crate": "replay_net", "release": True,
-             "what": "the receiving side's store: all 318 722 writer/reader histories of at most 7 steps on the real in-memory zone (see C09); for C10 "
+             "what": "the receiving side's store: all 520 486 writer/reader histories of at most 7 steps on the real in-memory zone (see C09); for C10 "
                      "the clauses 'the difference set a zone reports when a change is committed, applied to the old content, yields the new "
                      "content' (diff of every commit after one open(true), incl. RRsets written twice in one version) and 'never leave a "
                      "partially applied version visible' (abandoned writes, also after commit + re-open as the updater does per IXFR batch)"},
@@ -861,7 +861,7 @@ PROPS = {
         "level_prefix": "Partial proof -- contracts discharged without bound on the mechanisms named below, not the whole statement (bounded stand-ins and what is left out are listed): ",
         "units": ["versioned"],
         "vx_search": {"bin": "c09_search_zone_histories", "crate": "replay_net", "release": True,
-                      "what": "all 318 722 histories of at most 7 enabled steps (take and hold a reader; obtain the writer; ask for a second writer "
+                      "what": "all 520 486 histories of at most 7 enabled steps (take and hold a reader; obtain the writer; ask for a second writer "
                               "while the first is open -- its future must stay pending -- and let it in afterwards; open without / with diff tracking; "
                               "update_rrset / remove_rrset on three owner names, one new, one holding two records, one update changing only the TTL, remove_all at the apex "
                               "(the zone also holds a delegation and a CNAME, i.e. nodes with a `special`), at most three edits; commit; drop "
